@@ -236,11 +236,16 @@ impl Accept for DuplexIncoming {
         mut self: Pin<&mut Self>,
         cx: &mut Context<'_>,
     ) -> Poll<Result<Self::Conn, Self::Error>> {
-        if let Some(request) = ready!(self.receiver.poll_recv(cx)) {
-            let stream = request.ack(self.max_buf_size)?;
-            Poll::Ready(Ok(stream))
-        } else {
-            Poll::Ready(Err(io::ErrorKind::ConnectionReset.into()))
+        loop {
+            let Some(request) = ready!(self.receiver.poll_recv(cx)) else {
+                return Poll::Ready(Err(io::ErrorKind::ConnectionReset.into()));
+            };
+
+            // A client which gave up while waiting to be accepted is not
+            // an error of the listener: move on to the next request.
+            if let Ok(stream) = request.ack(self.max_buf_size) {
+                return Poll::Ready(Ok(stream));
+            }
         }
     }
 }
